@@ -263,6 +263,12 @@ func (e *Emitter) emitScriptStatement(scriptStmt *ast.ScriptStatement, textLabel
 				branchBehavior: &breakContext{destChunkID: destChunkID},
 			}
 			finalChunks[completeChunk.id] = completeChunk
+			if !curChunk.isLastStatement(i) {
+				// Statements after the jump are only reachable through a label, but
+				// they (and their labels) must still be emitted.
+				chunkCounter++
+				remainingChunks = append(remainingChunks, curChunk.createPostLogicChunk(chunkCounter, i))
+			}
 		} else if stmt, ok := curChunk.statements[i].(*ast.ContinueStatement); ok {
 			destChunkID, ok := breakStatementOriginChunks[stmt.LoopStatment]
 			if !ok {
@@ -275,6 +281,12 @@ func (e *Emitter) emitScriptStatement(scriptStmt *ast.ScriptStatement, textLabel
 				branchBehavior: &breakContext{destChunkID: destChunkID},
 			}
 			finalChunks[completeChunk.id] = completeChunk
+			if !curChunk.isLastStatement(i) {
+				// Statements after the jump are only reachable through a label, but
+				// they (and their labels) must still be emitted.
+				chunkCounter++
+				remainingChunks = append(remainingChunks, curChunk.createPostLogicChunk(chunkCounter, i))
+			}
 		} else if stmt, ok := curChunk.statements[i].(*ast.SwitchStatement); ok {
 			newRemainingChunks, jump, returnID := createSwitchStatementChunks(stmt, i, curChunk, remainingChunks, &chunkCounter)
 			remainingChunks = newRemainingChunks
